@@ -74,7 +74,7 @@ var ExtraSeeds = []string{
 	"\x1A\x45\xDF\xA3\x01\x00\x00\x00\x00\x00\x00\x1F\x42\x86\x81\x01\x42\x82\x84webm", "\x1A\x45\xDF\xA3\x93\x42\x82\x88matroska",
 	"Cr24\x02\x00\x00\x00\x04\x00\x00\x00\x04\x00\x00\x00AAAABBBBPK\x03\x04",
 	"\xCA\xFE\xBA\xBE\x00\x00\x00\x34", "\xCA\xFE\xBA\xBE\x00\x00\x00\x02",
-	"\x7FELF\x02\x01\x01\x00\x00\x00\x00\x00\x00\x00\x00\x00\x03\x00\x3e\x00", "OggS\x00\x02" + pad(22) + "\x01vorbis\x00\x00", "OggS\x00\x02" + pad(22) + "\x80theora\x00\x00",
+	"\x7FELF\x02\x01\x01\x00\x00\x00\x00\x00\x00\x00\x00\x00\x03\x00\x3e\x00", "\x7FELF\x02\x01\x01\x00\x00\x00\x00\x00\x00\x00\x00\x00\x04\x00\x3e\x00", "\x7FELF\x01\x02\x01\x00\x00\x00\x00\x00\x00\x00\x00\x00\x00\x01\x00\x3e", "OggS\x00\x02" + pad(22) + "\x01vorbis\x00\x00", "OggS\x00\x02" + pad(22) + "\x80theora\x00\x00",
 	"!<arch>\ndebian-binary   ", "\x89PNG\x0d\x0a\x1a\x0a" + pad(29) + "acTL", "\x00\x00\x27\x0A" + pad(20) + "\x00\x00\x00\x00\xe8\x03\x00\x00" + pad(76) + "\x05\x00\x00\x00",
 	"WEBVTT\n\n00:01.000 --> 00:04.000\nhi", "1\n00:02:16,612 --> 00:02:19,376\nSenator, we're making\n", "BEGIN:VCARD\nVERSION:3.0\n", "BEGIN:VCALENDAR\r\nVERSION:2.0\r\n",
 	"{\\rtf1\\ansi}", "WARC/1.0\r\nWARC-Type: warcinfo\r\n", "%PDF-1.7\n", "\x0a%PDF-1.7", "%FDF-1.2", "%!PS-Adobe-3.0",
